@@ -17,29 +17,29 @@ package types
 //@ forall d Str
 //@ trusted
 //@ modifies table:accountedpool:types.KeyPrefix/types.AccountedPoolKey, table:amm~:types.KeyPrefix/types.PoolKey, table:masterchef:types.GetUserRewardInfoKey, table:tier:types.GetPortfolioKey, module:sdk-distribution
-//@ requires reserveOf(ammPool, d) == reserveOf(ammPoolRow(ctx, ammPool.PoolId), d) && ammPoolHas(ctx, ammPool.PoolId)
-//@ requires perpNetOf(perpetualPool, d) == perpNetOf(perpPoolRow(ctx, ammPool.PoolId), d) && perpPoolHas(ctx, ammPool.PoolId)
+//@ requires C11/liquidity-pool-object-is-the-stored-one: reserveOf(ammPool, d) == reserveOf(ammPoolRow(ctx, ammPool.PoolId), d) && ammPoolHas(ctx, ammPool.PoolId)
+//@ requires C11/perpetual-pool-object-is-the-stored-one: perpNetOf(perpetualPool, d) == perpNetOf(perpPoolRow(ctx, ammPool.PoolId), d) && perpPoolHas(ctx, ammPool.PoolId)
 
 //@ iface PerpetualHooks.AfterPerpetualPositionModified
 //@ forall d Str
 //@ trusted
 //@ modifies table:accountedpool:types.KeyPrefix/types.AccountedPoolKey, table:amm~:types.KeyPrefix/types.PoolKey, table:masterchef:types.GetUserRewardInfoKey, table:tier:types.GetPortfolioKey, module:sdk-distribution
-//@ requires reserveOf(ammPool, d) == reserveOf(ammPoolRow(ctx, ammPool.PoolId), d) && ammPoolHas(ctx, ammPool.PoolId)
-//@ requires perpNetOf(perpetualPool, d) == perpNetOf(perpPoolRow(ctx, ammPool.PoolId), d) && perpPoolHas(ctx, ammPool.PoolId)
+//@ requires C11/liquidity-pool-object-is-the-stored-one: reserveOf(ammPool, d) == reserveOf(ammPoolRow(ctx, ammPool.PoolId), d) && ammPoolHas(ctx, ammPool.PoolId)
+//@ requires C11/perpetual-pool-object-is-the-stored-one: perpNetOf(perpetualPool, d) == perpNetOf(perpPoolRow(ctx, ammPool.PoolId), d) && perpPoolHas(ctx, ammPool.PoolId)
 
 //@ iface PerpetualHooks.AfterPerpetualPositionClosed
 //@ forall d Str
 //@ trusted
 //@ modifies table:accountedpool:types.KeyPrefix/types.AccountedPoolKey, table:amm~:types.KeyPrefix/types.PoolKey, table:masterchef:types.GetUserRewardInfoKey, table:tier:types.GetPortfolioKey, module:sdk-distribution
-//@ requires reserveOf(ammPool, d) == reserveOf(ammPoolRow(ctx, ammPool.PoolId), d) && ammPoolHas(ctx, ammPool.PoolId)
-//@ requires perpNetOf(perpetualPool, d) == perpNetOf(perpPoolRow(ctx, ammPool.PoolId), d) && perpPoolHas(ctx, ammPool.PoolId)
+//@ requires C11/liquidity-pool-object-is-the-stored-one: reserveOf(ammPool, d) == reserveOf(ammPoolRow(ctx, ammPool.PoolId), d) && ammPoolHas(ctx, ammPool.PoolId)
+//@ requires C11/perpetual-pool-object-is-the-stored-one: perpNetOf(perpetualPool, d) == perpNetOf(perpPoolRow(ctx, ammPool.PoolId), d) && perpPoolHas(ctx, ammPool.PoolId)
 
 //@ iface PerpetualHooks.AfterParamsChange
 //@ forall d Str
 //@ trusted
 //@ modifies table:accountedpool:types.KeyPrefix/types.AccountedPoolKey, table:amm~:types.KeyPrefix/types.PoolKey, table:masterchef:types.GetUserRewardInfoKey, table:tier:types.GetPortfolioKey, module:sdk-distribution
-//@ requires reserveOf(ammPool, d) == reserveOf(ammPoolRow(ctx, ammPool.PoolId), d) && ammPoolHas(ctx, ammPool.PoolId)
-//@ requires perpNetOf(perpetualPool, d) == perpNetOf(perpPoolRow(ctx, ammPool.PoolId), d) && perpPoolHas(ctx, ammPool.PoolId)
+//@ requires C11/liquidity-pool-object-is-the-stored-one: reserveOf(ammPool, d) == reserveOf(ammPoolRow(ctx, ammPool.PoolId), d) && ammPoolHas(ctx, ammPool.PoolId)
+//@ requires C11/perpetual-pool-object-is-the-stored-one: perpNetOf(perpetualPool, d) == perpNetOf(perpPoolRow(ctx, ammPool.PoolId), d) && perpPoolHas(ctx, ammPool.PoolId)
 
 // ---- C09: pool aggregates move together with the position amounts -----------------------------------------
 // What a perpetual pool records for a side (1 = long, anything else = short, as GetPoolAssets reads it)
